@@ -156,9 +156,9 @@ theorem startInLoop_mid (c : C) (r : List Task) (ph : Bool) (hi : Mid c r ph) (h
       all_goals mid_auto
   · exact hi
 
-theorem stopInLoop_mid (c : C) (r : List Task) (ph : Bool) (hi : Mid c (.stopInLoop :: r) ph) :
-    Mid (stopInLoop c) r ph := by
-  unfold stopInLoop
+theorem stopInLoopCore_mid (c : C) (r : List Task) (ph : Bool) (hi : Mid c (.stopInLoop :: r) ph) :
+    Mid (stopInLoopCore c) r ph := by
+  unfold stopInLoopCore
   split
   · rename_i hst
     simp only [stopActs] at hst
@@ -204,6 +204,35 @@ theorem stopInLoop_mid (c : C) (r : List Task) (ph : Bool) (hi : Mid c (.stopInL
     obtain ⟨notDead, a1, a2, a3, a4, a5, a6, a7, a8, a9, a10, a11, a13, a14, a15, a16, s1, c1, c2, c3, c4, c5, c6, c7, c8, c9, c10, g1, g3, h1, t1⟩ := hi
     constructor
     all_goals mid_auto
+
+/-! ### `Connector::cancelRetryTimer()` -/
+
+theorem nRetry_cancel (l : List (Nat × TKind)) : nRetry (l.filter (fun t => !(t.2 == .retry))) = 0 := by
+  unfold nRetry
+  rw [List.countP_eq_zero]
+  intro t ht
+  have := (List.mem_filter.mp ht).2
+  simpa [isRetryT] using this
+
+theorem cancelRetry_mid (c : C) (r : List Task) (ph : Bool) (hi : Mid c r ph) : Mid (cancelRetry c) r ph := by
+  have hz := nRetry_cancel c.timers
+  have hsub : ∀ t ∈ c.timers.filter (fun t => !(t.2 == .retry)), t ∈ c.timers := fun t ht => (List.mem_filter.mp ht).1
+  unfold cancelRetry
+  obtain ⟨notDead, a1, a2, a3, a4, a5, a6, a7, a8, a9, a10, a11, a13, a14, a15, a16, s1, c1, c2, c3, c4, c5, c6, c7, c8, c9, c10, g1, g3, h1, t1⟩ := hi
+  constructor
+  all_goals mid_auto
+
+theorem cancelIf_mid (b : Bool) (c : C) (r : List Task) (ph : Bool) (hi : Mid c r ph) : Mid (cancelIf b c) r ph := by
+  unfold cancelIf; split
+  · exact cancelRetry_mid c r ph hi
+  · exact hi
+
+/-- after the cancellation no back-off timer is pending -/
+theorem cancelRetry_none (c : C) : nRetry (cancelRetry c).timers = 0 := nRetry_cancel c.timers
+
+theorem stopInLoop_mid (c : C) (r : List Task) (ph : Bool) (hi : Mid c (.stopInLoop :: r) ph) :
+    Mid (stopInLoop c) r ph :=
+  stopInLoopCore_mid _ r ph (cancelIf_mid _ c _ ph hi)
 
 /-- the attempt on socket `k` failed after the poller reported it: `removeAndResetChannel` + `retry` -/
 theorem failAttempt_mid (c : C) (r : List Task) (hi : Mid c r false) (hon : c.chanOn = true) (k : Nat) (hk : c.chan = some k)
